@@ -1,7 +1,168 @@
-/- C17 line-protocol driver (core-only). Stub until the property's model lands. -/
+/- C17 line-protocol driver (core-only). -/
+import BV.C17.Model
 namespace BV.C17.Driver
 
+def pid (o : Option Nat) : String := match o with | none => "-" | some n => toString n
+def b01 (b : Bool) : String := if b then "1" else "0"
+
+def ids (l : List Nat) : String :=
+  if l.isEmpty then "-" else ".".intercalate (l.map toString)
+
+def res : Res → String
+  | .err => "err"
+  | .panic => "panic"
+  | .ids l => ids l
+
+/-- "p:len,p:len" → parent list; `none` when malformed or a parent does not exist yet -/
+def parseSegs (s : String) : Option (List Nat) :=
+  if s == "-" then some [] else
+  let rec go (segs : List String) (acc : Array Nat) : Option (Array Nat) :=
+    match segs with
+    | [] => some acc
+    | seg :: rest =>
+      match seg.splitOn ":" with
+      | [p, l] =>
+        match p.toNat?, l.toNat? with
+        | some p, some l =>
+          if p > acc.size ∨ l < 1 then none else
+          let acc := (List.range l).foldl (fun (a : Array Nat) j => a.push (if j = 0 then p else a.size)) acc
+          go rest acc
+        | _, _ => none
+      | _ => none
+  (go (s.splitOn ",") #[]).map (·.toList)
+
+def parseOid (s : String) : Option (Option Nat) :=
+  if s == "-" then some none else s.toNat?.map some
+
+def parseLoc (s : String) : Option (List Nat) :=
+  if s == "-" then some [] else (s.splitOn ".").mapM (·.toNat?)
+
+def viewDigest (v : View) : String :=
+  if v.isEmpty then "0/-/0" else
+  let (cks, _) := v.foldl (fun (acc : Nat × Nat) o =>
+    let (c, h) := acc
+    let x := match o with | none => 1 | some n => n + 2
+    ((c + (h + 1) * x) % 1000000007, h + 1)) (0, 0)
+  s!"{v.length}/{pid v.tip}/{cks}"
+
+structure St where
+  idx : Index
+  view : View := []
+  status : List (Nat × Nat) := []
+
+def St.valid (s : St) (n : Nat) : Bool :=
+  match s.status.find? (·.1 == n) with
+  | some (_, st) => st / 2 % 2 == 1
+  | none => true
+
+/-- one query token; `none` = malformed -/
+def op (s : St) (tok : String) : Option (St × String) :=
+  let idx := s.idx
+  let v := s.view
+  let inIdx (n : Nat) : Option Nat := if n < idx.size then some n else none
+  match tok.splitOn ":" with
+  | ["tip", n] => do
+    let n ← parseOid n
+    let v' := setTip idx v n
+    pure ({ s with view := v' }, viewDigest v')
+  | ["view"] => some (s, if v.isEmpty then "-" else ".".intercalate (v.map pid))
+  | ["anc", n, h] => do
+    let n ← n.toNat? >>= inIdx
+    let h ← h.toInt?
+    pure (s, pid (ancestor idx n h))
+  | ["skip", n] => do
+    let n ← n.toNat? >>= inIdx
+    pure (s, pid ((idx[n]?.map (·.ancestor)).join))
+  | ["rel", n, d] => do
+    let n ← n.toNat? >>= inIdx
+    let d ← d.toInt?
+    pure (s, pid (relativeAncestor idx n d))
+  | ["isa", n, o] => do
+    let n ← n.toNat? >>= inIdx
+    let o ← parseOid o
+    pure (s, b01 (isAncestor idx n o))
+  | ["has", n] => do
+    let n ← n.toNat? >>= inIdx
+    pure (s, b01 (v.contains idx n))
+  | ["nxt", n] => do
+    let n ← parseOid n
+    pure (s, pid (v.next idx n))
+  | ["fork", n] => do
+    let n ← parseOid n
+    pure (s, pid (findFork idx v n))
+  | ["at", h] => do
+    let h ← h.toInt?
+    pure (s, pid (v.nodeByHeight h))
+  | ["ht"] => some (s, s!"{v.height}/{pid v.tip}/{pid v.genesis}")
+  | ["loc", n] =>
+    if n == "-" then some (s, ids (blockLocator idx v none)) else do
+    let n ← n.toNat?
+    pure (s, ids (blockLocatorFromHash idx v n))
+  | [kind, loc, stop, mx] =>
+    if kind == "inv" ∨ kind == "hdr" then do
+      let loc ← parseLoc loc
+      let stop ← stop.toNat?
+      let mx ← mx.toNat?
+      match locateBlocks idx v loc stop mx with
+      | none => pure (s, "panic")
+      | some l => pure (s, ids l)
+    else if kind == "linv" then do
+      let loc ← parseLoc loc
+      let stop ← stop.toNat?
+      let mx ← mx.toNat?
+      let (n, total) := locateInventory idx v loc stop mx
+      pure (s, s!"{pid n}/{total}")
+    else if kind == "h2h" then do
+      let st ← loc.toInt?
+      let e ← stop.toNat?
+      let mx ← mx.toInt?
+      pure (s, res (heightToHashRange idx s.valid st e mx))
+    else none
+  | ["rng", a, b] => do
+    let a ← a.toInt?
+    let b ← b.toInt?
+    pure (s, res (heightRange idx v a b))
+  | ["ivl", e, iv] => do
+    let e ← e.toNat?
+    let iv ← iv.toInt?
+    pure (s, res (intervalBlockHashes idx v s.valid e iv))
+  | ["mch", n] => do
+    let n ← n.toNat?
+    pure (s, b01 (mainChainHasBlock idx v n))
+  | ["hbh", n] => do
+    let n ← n.toNat?
+    pure (s, match blockHeightByHash idx v n with | some h => toString h | none => "err")
+  | ["bhh", h] => do
+    let h ← h.toInt?
+    pure (s, match v.nodeByHeight h with | some n => toString n | none => "err")
+  | ["st", n, st] => do
+    let n ← n.toNat? >>= inIdx
+    let st ← st.toNat?
+    pure ({ s with status := (n, st) :: s.status }, "ok")
+  | _ => none
+
+def runOps (s : St) (toks : List String) : String :=
+  let rec go (s : St) (toks : List String) (acc : List String) : Option (List String) :=
+    match toks with
+    | [] => some acc.reverse
+    | t :: rest => match op s t with
+      | none => none
+      | some (s', out) => go s' rest (out :: acc)
+  match go s toks [] with
+  | none => "bad-op"
+  | some outs => if outs.contains "panic" then "panic" else "|".intercalate outs
+
 def handle : List String → String
-  | _ => "unimplemented"
+  | ["gah", h] => match h.toNat? with
+    | some h => s!"{invertLowestOne h}/{getAncestorHeight h}"
+    | none => "bad-op"
+  | ["log2", n] => match n.toNat? with
+    | some n => toString (Nat.log2 n)
+    | none => "bad-op"
+  | "t" :: segs :: toks =>
+    match parseSegs segs with
+    | none => "bad-op"
+    | some ps => runOps { idx := build ps } toks
+  | _ => "bad-op"
 
 end BV.C17.Driver
